@@ -11,6 +11,7 @@ def runCase (lines : Array String) : Array String :=
     | "append" :: _ => "append larger=1"
     | ["busyappend"] => "busyappend refused"
     | ["concappend", _, _] => "concappend ok"
+    | ["saveretry"] => "saveretry ok"
     | _ => "bad-op " ++ l
 
 def kvOf (ws : List String) (k : String) : String :=
